@@ -147,6 +147,35 @@ def check_type_tables(prog, r):
         else:
             r.violation(key, fn.name, fn.file, fn.blocks[b].get('label_line') or fn.line,
                         'skipping a \'%s\' advances by %s bytes, its wire size is %s' % (ch, sorted(adv), SPEC[ch][1]))
+    # byte-swapper: every multi-byte fixed value, and the length word of strings / paths / arrays, is
+    # rewritten in place with a store of its own width (a case that only steps over the bytes converts nothing)
+    fn = prog.fn('byteswap_body_helper', 'dbus/dbus-marshal-byteswap.c')
+    cases, default, sw = switch_map(fn, 'current_type')
+    want = {'n': '16', 'q': '16', 'b': '32', 'i': '32', 'u': '32', 'h': '32', 'x': '64', 't': '64', 'd': '64',
+            's': '32', 'o': '32', 'a': '32'}
+    for ch, bits in want.items():
+        b = cases.get(ord(ch))
+        if b is None:
+            continue
+        body = body_of(fn, b)
+        stores = set()
+        for ev in fn.blocks[body]['events']:
+            for lhs, how, rhs in written_lvalues(ev):
+                if lhs.get('k') == 'un' and lhs['op'] == '*' and how == '=' and isinstance(rhs, dict):
+                    # the extractor drops casts: the width is that of the swap primitive whose result is stored
+                    for x in walk(rhs):
+                        if x.get('k') == 'call':
+                            nm = (x.get('m') or '') + ' ' + (x.get('callee') or '')
+                            for bb in ('16', '32', '64'):
+                                if bb in nm and ('SWAP' in nm.upper()):
+                                    stores.add(bb)
+        key = 'byteswap_body_helper:%s:swapped-in-place' % ch
+        if bits in stores:
+            r.ok(key, {'store_bits': bits})
+        else:
+            r.violation(key, fn.name, fn.file, fn.blocks[b].get('label_line') or sw['term']['line'],
+                        'the byte-swapper has no %s-bit store for type code \'%s\' (found stores: %s): the value '
+                        'keeps its old byte order' % (bits, ch, sorted(stores) or 'none'))
     # the type-code macros themselves
     names = {'y': 'BYTE', 'b': 'BOOLEAN', 'n': 'INT16', 'q': 'UINT16', 'i': 'INT32', 'u': 'UINT32', 'x': 'INT64',
              't': 'UINT64', 'd': 'DOUBLE', 's': 'STRING', 'o': 'OBJECT_PATH', 'g': 'SIGNATURE', 'h': 'UNIX_FD',
